@@ -34,7 +34,8 @@ RECURSIVE Flat(_)
 Flat(rs) == IF rs = <<>> THEN <<>>
             ELSE <<LetterIdx(rs[1].ch), ErrIdx(rs[1].err), rs[1].k, rs[1].d, rs[1].ai, rs[1].ci>> \o Flat(Tail(rs))
 
-Code(w) == LET l == GOLoop(OptStrings[osi], ArgvOf(w)) IN <<l.optind, Len(l.reports)>> \o Flat(l.reports)
+CodeOf(l) == <<l.optind, Len(l.reports)>> \o Flat(l.reports)
+Code(w) == CodeOf(GOLoop(OptStrings[osi], ArgvOf(w)))
 
 Vis(w) == LET os == OptStrings[osi]
               a == ArgvOf(w)
